@@ -264,6 +264,41 @@ def raw_cases(tier, seed, mode):
                     out.append(G.case("rawA-%s-%d" % (cls, k), cls, mode, ["with_alignment v0 %d %d" % (n, a), "push v0 1", "push v0 2", op, "push v0 3", "pop v0"])); k += 1
     return out
 
+def clone_panic_cases(mode):
+    """a Clone that panics at its k-th call, for every cloning entry point: neither value may be harmed"""
+    out = []
+    n = 0
+    seqs = [["clone v0 c", "drop c"],
+            ["into_iter v0 it", "next it", "clone_iter it j", "drop j", "drop it"],
+            ["into_iter v0 it", "next_back it", "clone_iter it j", "next j", "drop it", "drop j"],
+            ["into_iter v0 it", "clone_iter it j", "drop it", "as_slice j", "drop j"],
+            ["macro_list c 40 41 42 43 44 45 46 47 48", "clone_from v0 c", "drop c", "push v0 98"],
+            ["macro_list c 40", "clone_from v0 c", "push c 3", "drop c"],
+            ["extend_from_slice v0 7 8 9"], ["extend_from_within v0 U U"], ["resize v0 9 5"], ["macro_repeat c 5 4", "drop c"]]
+    for cls in ("w4", "s16", "a16"):
+        for label, pre in G.start_states(cls):
+            if label in ("sentinel", "zero", "empty", "over64zero"):
+                continue
+            for seq in seqs:
+                for k in range(1, 7):
+                    out.append(G.case("cp-%s-%s-%d-p%d" % (cls, label, n, k), cls, mode, pre + list(seq) + ["push v0 77", "pop v0"], ["!panic_at %d" % k]))
+                n += 1
+    return out
+
+def lying_hint_cases(mode):
+    """Splice / extend / collect with replacement iterators whose size_hint is wrong in either direction:
+    every item the iterator yields must still arrive (std::vec::Vec is the reference)"""
+    out = []
+    k = 0
+    for cls in ("w4", "s16"):
+        for label, pre in G.start_states(cls)[:6]:
+            for fill in ("it[7,8,9]", "it[7]", "it[7,8,9,10,11,12,13]"):
+                for h in ("h0-0", "h0-1", "h0-N", "h5-5", "h1-2", "h100-N"):
+                    for b1, b2 in (("I1", "E2"), ("I0", "E0"), ("U", "U"), ("I2", "U")):
+                        out.append(G.case("lh-%s-%s-%d" % (cls, label, k), cls, mode, pre + ["splice v0 %s %s %s%s it" % (b1, b2, fill, h), "next it", "drop it", "push v0 77"])); k += 1
+                    out.append(G.case("lh-%s-%s-%d" % (cls, label, k), cls, mode, pre + ["extend v0 %s%s" % (fill, h), "collect c %s%s" % (fill, h), "push v0 77"])); k += 1
+    return out
+
 def raw_natural_cases(mode):
     """raw-parts round trips of buffers with the element type's natural alignment (the over-aligned ones are C14's)"""
     out = []
@@ -320,7 +355,12 @@ def align_cases(tier, seed, mode):
             ["push v0 1", "shrink_to_fit v0", "splice v0 U U it[7,8,9] it", "next it", "drop it"],
             ["extend v0 it[1,2,3,4]", "shrink_to_fit v0", "insert v0 1 9", "shrink_to_fit v0", "extend_from_within v0 U U", "shrink_to_fit v0", "resize v0 30 1"],
             ["push v0 1", "shrink_to_fit v0", "macro_list c 1 2 3 4 5", "append v0 c", "shrink_to_fit v0", "extend_from_slice v0 1 2 3", "shrink_to_fit v0", "resize_with v0 20 g[1]"],
-            ["deserialize_in_place v0 N sq[1,2,3,4,5,6,7,8,9]", "shrink_to_fit v0", "collect c it[1,2]", "append v0 c"]]
+            ["deserialize_in_place v0 N sq[1,2,3,4,5,6,7,8,9]", "shrink_to_fit v0", "collect c it[1,2]", "append v0 c"],
+            # append into a destination that owns a zero-capacity over-aligned block, and out of an over-aligned source
+            ["macro_list c 1 2 3 4 5", "append v0 c", "push v0 1", "extend v0 it[1,2,3,4,5,6,7,8,9,10,11,12,13,14,15,16,17]"],
+            ["extend_from_slice v0 1 2 3", "clear v0", "shrink_to v0 0", "macro_repeat c 7 9", "append v0 c", "push v0 1", "push c 2"],
+            ["extend_from_slice v0 1 2 3", "new d", "append d v0", "push v0 1", "extend v0 it[1,2,3,4,5,6,7,8,9,10,11,12,13,14,15,16,17]", "push d 1"],
+            ["extend_from_slice v0 1 2 3", "with_capacity d 0", "append d v0", "extend_from_slice v0 4 5 6 7 8 9", "clone_from d v0", "push d 1"]]
     for cls in G.CLASSES:
         for a in aligns:
             for n in (0, 1, 4):
@@ -408,18 +448,19 @@ PROPS = {
         "partial_missing": ["lifting of the generated-code theorems through the hand model for resize / resize_with / mini_vec![x; n] / extend_from_slice is by correspondence only"],
     },
     "C10": {"modules": ["MiniVecProof.Props.C10", "MiniVecProof.Props.C10IntoIter", "MiniVecProof.Props.C06"],
-            "cases": lambda tier, seed: [("debug", corpus("debug", "C10") + iterator_cases(tier, seed, "debug"))],
+            "cases": lambda tier, seed: [("debug", corpus("debug", "C10") + iterator_cases(tier, seed, "debug") + lying_hint_cases("debug")),
+                                         ("release", boundary_grid("release"))],
             "owned_oracles": ["O vec-mismatch", "X signal 11"], "owned_diffs": ["result", "contents", "ub", "crash"],
             "partial_missing": ["proved for Drain on every storage state (C10_drain_partial): every interleaving of front/back steps yields what the list iterator over es[st..en] yields, exact counts, None for ever after the ends meet, vector untouched by steps, and drop leaves prefix ++ suffix destroying exactly the unyielded elements; proved for IntoIter on every storage state (C10_into_iter_partial): same protocol, exact len(), as_slice() = unyielded elements, drop destroys exactly those and frees the block with its layout; Splice, DrainFilter: yielded sequences and counts checked against std's iterators and the model by correspondence only"]},
     "C11": {
         "modules": ["MiniVecProof.Props.C11"],
         "cases": lambda tier, seed: [("debug", corpus("debug", "C11") + argument_grid("debug")), ("release", argument_grid("release"))] if tier == "thorough"
-                 else [("debug", corpus("debug", "C11") + argument_grid("debug"))],
+                 else [("debug", corpus("debug", "C11") + argument_grid("debug")), ("release", boundary_grid("release"))],
         "owned_oracles": ["accept-predicate", "rejected-unchanged", "X signal 11"],
         "owned_diffs": ["panic", "result"],
     },
     "C12": {"modules": ["MiniVecProof.Props.C12", "MiniVecProof.Props.C10IntoIter"],
-            "cases": lambda tier, seed: [("debug", corpus("debug", "C12") + clone_cases(tier, seed, "debug"))],
+            "cases": lambda tier, seed: [("debug", corpus("debug", "C12") + clone_cases(tier, seed, "debug") + clone_panic_cases("debug"))],
             "owned_oracles": ["O ledger", "O alloc", "X signal", "O vec-mismatch"], "owned_diffs": ["own", "contents", "result", "alloc", "ub", "crash", "panic"],
             "partial_missing": ["proved: Clone for MiniVec returns a well-formed vector of value-equal clones in order with the source handle untouched, or stops in a sanctioned way (C12_clone_partial); IntoIter::as_slice (what IntoIter::clone copies) is exactly the unyielded elements (into_as_slice); IntoIter::clone, clone_from and independence under later mutation/drop in either order: correspondence with owning elements only"]},
     "C14": {"modules": ["MiniVecProof.Props.C14"],
